@@ -22,6 +22,7 @@ PROOF_FAIL_PATTERNS = [
     r"index out of bounds",
     r"unreachable",
     r"cannot prove that",
+    r"unable to prove post-?condition of closure",
     r"failed to prove",
     r"not satisfied",
     r"possible .*overflow",
